@@ -210,7 +210,22 @@ class Reader:
         self.consume_keyword("at")
         alignment = self.parse_integer()
         self.consume(")")
-        variable = ir.Variable(name, binding, amount, alignment)
+        value = None
+        if self.peek == "=":
+            # Initial value: hex strings and references to symbols.
+            self.consume("=")
+            parts = []
+            while self.peek in ("STRING", "&"):
+                if self.peek == "&":
+                    self.consume("&")
+                    parts.append((ir.ptr, self.parse_id()))
+                else:
+                    parts.append(unhexlify(self.consume("STRING")[1]))
+                if self.peek != ",":
+                    break
+                self.consume(",")
+            value = tuple(parts)
+        variable = ir.Variable(name, binding, amount, alignment, value=value)
         self.define_value(variable)
         return variable
 
